@@ -64,6 +64,9 @@ func caseSize(c *Case) int {
 		n = 100 * len(r)
 	}
 	n += 10 * len(c.Args)
+	if c.Pre != "" {
+		n += 50
+	}
 	for _, a := range c.Args {
 		if i, ok := a.V.(int); ok {
 			if i < 0 {
@@ -101,7 +104,14 @@ func forEachCase(a shardArg, emit func(*Case)) {
 	if a.Fam == "arr" {
 		rs := arrReceivers(a.M, a.Quick, a.At)
 		for i := a.Lo; i < a.Hi && i < len(rs); i++ {
-			genArr(a.M, rs[i], a.At, a.Quick, emit)
+			genArr(a.M, rs[i], a.At, fullPools, emit)
+		}
+		return
+	}
+	if a.Fam == "arr2" {
+		rs := arr2Receivers(a.Quick, a.At)
+		for i := a.Lo; i < a.Hi && i < len(rs); i++ {
+			genArr2(a.M, rs[i], a.At, emit)
 		}
 		return
 	}
@@ -163,7 +173,11 @@ func worker(w *pool.W, arg json.RawMessage) {
 				fails[fk] = f
 			}
 			f.N++
-			if fs := strings.Join(c.Shape, ","); !contains(f.Fine, fs) && len(f.Fine) < 64 {
+			fs := strings.Join(c.Shape, ",")
+			if c.Pre != "" {
+				fs = "after " + c.Pre + ": " + fs
+			}
+			if !contains(f.Fine, fs) && len(f.Fine) < 64 {
 				f.Fine = append(f.Fine, fs)
 			}
 			if sz < f.Size {
@@ -259,6 +273,9 @@ func main() {
 	}
 	for _, m := range arrMethods {
 		plan("arr", m, len(arrReceivers(m, quick, at)))
+	}
+	for _, m := range arrMethods {
+		plan("arr2", m, len(arr2Receivers(quick, at)))
 	}
 	for _, m := range strMethods {
 		plan("str", m, len(strReceivers(quick, at)))
@@ -433,6 +450,9 @@ func normCase(c *Case) {
 		return
 	}
 	c.Recv = norm(c.Recv)
+	if c.Recv0 != nil {
+		c.Recv0 = norm(c.Recv0)
+	}
 	for i := range c.Args {
 		c.Args[i].V = norm(c.Args[i].V)
 	}
